@@ -10,9 +10,10 @@ static void quiet(const char *msg) { (void)msg; }
  * undefined state; nothing more is asked of them, and `reset` drops them without freeing */
 int bvp_poisoned = 0;
 
-static int op_reset(int argc, char **argv)
+/* everything every op file holds is released (also used by own.reset, C16) */
+void bvp_reset_all(void)
    {
-   (void)argc; (void)argv;
+   own_reset();
    bits_reset();
    scale_reset();
    template_reset();
@@ -28,6 +29,14 @@ static int op_reset(int argc, char **argv)
    bufr_set_verbose(0);
    switch_reset();
    bvp_poisoned = 0;
+#ifdef LIBECBUFR_VERIF
+   own_reset_check();   /* C16: with a baseline taken (own.base), the live-object counters must be back at it */
+#endif
+   }
+static int op_reset(int argc, char **argv)
+   {
+   (void)argc; (void)argv;
+   bvp_reset_all();
    fputs("ok", bvp_out);
    return 0;
    }
@@ -42,7 +51,7 @@ static int op_dbg(int argc, char **argv)
    }
 static struct op_entry ops_core[] = { { "reset", op_reset }, { "dbg", op_dbg }, { NULL, NULL } };
 
-static struct op_entry *tables[] = { ops_core, ops_bits, ops_template, ops_ieee, ops_codec, ops_tables, ops_frame, ops_scale, ops_find, ops_local, ops_dump, ops_tmpltext, ops_switch, NULL };
+static struct op_entry *tables[] = { ops_core, ops_bits, ops_template, ops_ieee, ops_codec, ops_tables, ops_frame, ops_scale, ops_find, ops_local, ops_dump, ops_tmpltext, ops_switch, ops_own, NULL };
 
 int bvp_parse_hex(const char *s, unsigned char **out)
    {
@@ -133,5 +142,5 @@ int main(int argc, char **argv)
       fflush(bvp_out);
       }
    free(line);
-   return 0;
+   return own_exit_code();   /* C16: a leak seen by a `reset` fails the process */
    }
